@@ -5,7 +5,7 @@ export GOFLAGS=-mod=mod GOPROXY=off GOSUMDB=off GOTOOLCHAIN=local
 PATCH=$1; shift
 cd /repo
 if [ -n "$(git status --porcelain --untracked-files=no)" ]; then echo "repo dirty"; exit 2; fi
-git apply "$PATCH" 2>/dev/null || git apply -3 "$PATCH" 2>/dev/null || { echo "PATCH-DOES-NOT-APPLY $PATCH"; git checkout -q -- .; exit 3; }
+git apply "$PATCH" 2>/dev/null || git apply -3 "$PATCH" 2>/dev/null || { echo "PATCH-DOES-NOT-APPLY $PATCH"; git checkout -q HEAD -- .; git reset -q; exit 3; }
 git reset -q 2>/dev/null
 if ! go build ./... 2>/tmp/mutbuild.log; then echo "MUTANT-DOES-NOT-BUILD"; git checkout -q -- .; exit 3; fi
 cd /verif
